@@ -6,7 +6,7 @@ export GOFLAGS=-mod=mod GOPROXY=off GOSUMDB=off GOTOOLCHAIN=local
 mkdir -p .build evidence replay/found
 cat /repo/go.sum harness/go.sum.extra | sort -u > harness/go.sum
 cd harness
-go1.26.8 build ./... 
+go1.26.8 build -tags verif ./...
 go1.26.8 vet -tags verif ./... >/dev/null 2>&1 || true
 for d in c[0-9][0-9]; do
   id=$(echo $d | tr c C)
